@@ -1275,7 +1275,7 @@ class SimCext:
                 raise TypeError("sequence of integers expected")
             if c < 0:
                 raise ValueError("invalid CPU value")
-            if c > 2**31 - 1:
+            if c > 2**63 - 1:   # PyLong_AsLong on LP64; CPU_SET() ignores indexes beyond the set
                 raise OverflowError("Python int too large to convert to C long")
         # kernel: requested mask AND the CPUs the task may use (cpuset)
         allowed = set(range(k.ncpus)) if p.cpuset is None else set(p.cpuset)
